@@ -141,6 +141,28 @@ func c09(r *Run) {
 		}
 	}
 
+	// the state machine starts in none (OnConnect can win its CAS exactly once)
+	{
+		ok := false
+		forEachIns(initFn, func(i ssa.Instruction) {
+			if st, isSt := i.(*ssa.Store); isSt && isStoreToField(i, "connection", "state") {
+				k, okc := constInt(st.Val)
+				ok = okc && k == stNone
+			}
+		})
+		// no store at all is fine too (zero value) as long as none == 0
+		none0 := stNone == 0
+		has := len(findIns(initFn, func(i ssa.Instruction) bool { return isStoreToField(i, "connection", "state") })) > 0
+		r.ob("C09.R2:state-starts-none", "a new connection starts in state none", initFn, nil, ok || (!has && none0), "c.state = connStateNone", false)
+		// state is only ever changed by the three transitions
+		for _, site := range callSitesOf(w, chg) {
+			a, okA := argConst(callCommon(site), 0)
+			b, okB := argConst(callCommon(site), 1)
+			legal := okA && okB && ((a == stNone && b == stConn) || (a == stConn && b == stDis))
+			r.ob("C09.R2:legal-transition:"+siteKey(w, site), "the connection state only moves none->connected->disconnected", site.Parent(), site, legal, fmt.Sprintf("changeState(%d,%d)", a, b), false)
+		}
+	}
+
 	// ---- R3 disconnect at most once, after connect -----------------------------------------------
 	casDis := callResultAtom(chg, true, stConn, stDis)
 	nDis := 0
